@@ -128,7 +128,7 @@ def run(ctx):
     ctx.require("chains_completed", 50)
     for k in ALL_KINDS:
         ctx.require("chains:" + k, 5)
-    g = IRGen(ctx.rng, knobs(hostile_strings=not ctx.quick(), p_doc_states_default=0.15, p_hyphen_tokens=0.3))
+    g = IRGen(ctx.rng, knobs(hostile_strings=not ctx.quick(), p_doc_states_default=0.15, p_hyphen_tokens=0.3, p_return_literal_source=0.2))
     ga = IRGen(ctx.rng, knobs(hostile_strings=not ctx.quick(), argparse_domain=True, p_doc_states_default=0.15, p_hyphen_tokens=0.3))
     n = ctx.n(1200, 30000)
     spaces = {k: option_space(k) for k in ALL_KINDS}
